@@ -221,7 +221,7 @@ def attribute_devs(p='', vpls=False):
     # atomic-aggregate
     out += [D(p + 'atomic-aggregate', 'set', 'atomic-aggregate', 'ok', set_attr('atomic-aggregate', True)),
             D(p + 'atomic-aggregate', 'twice', 'atomic-aggregate atomic-aggregate', 'either', set_attr('atomic-aggregate', True)),
-            D(p + 'atomic-aggregate', 'with-value', 'atomic-aggregate 1', 'bad')]
+            D(p + 'atomic-aggregate', 'with-value', 'atomic-aggregate 1', 'either', set_attr('atomic-aggregate', True))]
     # aggregator
     for v in (1, P16 - 1, P16, P32 - 1):
         out.append(D(p + 'aggregator', f'asn={blabel(v)}', f'aggregator ( {v}:10.9.8.7 )', 'ok', set_attr('aggregator', (v, '10.9.8.7')), must=v == P32 - 1))
